@@ -28,6 +28,13 @@ func New(maxProcessing dag.Metric, warning func(received dag.Metric, processing 
 
 func (s *DataSemaphore) Acquire(weight dag.Metric, timeout time.Duration) bool {
 	deadline := time.Now().Add(timeout)
+	// wake up the waiter when the deadline expires
+	timer := time.AfterFunc(timeout, func() {
+		s.mu.Lock()
+		defer s.mu.Unlock()
+		s.cond.Broadcast()
+	})
+	defer timer.Stop()
 	s.mu.Lock()
 	defer s.mu.Unlock()
 	for !s.tryAcquire(weight) {
@@ -49,6 +56,10 @@ func (s *DataSemaphore) tryAcquire(metric dag.Metric) bool {
 	tmp := s.processing
 	tmp.Num += metric.Num
 	tmp.Size += metric.Size
+	if tmp.Num < metric.Num || tmp.Size < metric.Size {
+		// overflow
+		return false
+	}
 	if tmp.Num > s.maxProcessing.Num || tmp.Size > s.maxProcessing.Size {
 		return false
 	}
